@@ -16,7 +16,9 @@
           3 fragment geometry; 4 line y / height; 5 SplitFirstLine contract; 6 SplitFirstLine
           differs from the model's first line; 7 monitor: a line overflows although it has a
           break opportunity; 8 monitor: break at a forbidden position; 9 monitor: lines do not
-          stack; 10 malformed case (projection failed). *)
+          stack; 10 malformed case (projection failed); 11 x / width of a line box;
+          21-23 known findings described exactly by a variant of the model; 101-103 the input
+          has the structural trigger of a known finding (see t_space_limit / t_glued). *)
 From Verif Require Export Layout.LineBreak.
 From Coq Require Import List ZArith QArith Qminmax Qabs Bool NArith.
 Import ListNotations.
@@ -63,9 +65,10 @@ Fixpoint lines_cmp (m o : list oline) : N :=
   match m, o with
   | [], [] => 0
   | a :: r, b :: s =>
-      if negb (forallb frag_dyadic (ofr a)) then 2
+      if negb (forallb frag_dyadic (ofr a) && dyadic (ox a) && dyadic (ow a)) then 2
       else if negb (frags_eqb (ofr a) (ofr b)) then 3
       else if negb (Qeq_bool (oy a) (oy b) && Qeq_bool (oh a) (oh b)) then 4
+      else if negb (Qeq_bool (ox a) (ox b) && Qeq_bool (ow a) (ow b)) then 11
       else lines_cmp r s
   | _, _ => 1
   end%N.
@@ -73,15 +76,19 @@ Fixpoint lines_cmp (m o : list oline) : N :=
 (* ---- SplitFirstLine *)
 Definition glyphs (emv : Z) (l : list item) : Z :=
   fold_right (fun i a => match i with Word w | Space _ w => w / emv + a | Hard => 1 + a | _ => a end) 0 l.
+(* (EB counts for nothing: it is a position between two glyphs) *)
 
 Definition no_hard (l : list item) : list item := filter (fun i => negb (is_hard i)) l.
 
-(* (length kept on the first line, index where the second line starts or -1) *)
-Definition split_expect (emv maxw : Z) (items : list item) : Z * Z :=
-  match flat (break_lines maxw 0 items) with
-  | [] => (0, -1)
-  | [l] => (glyphs emv (no_hard (trim_line l)), -1)
-  | l :: _ => (glyphs emv (no_hard (trim_line l)), glyphs emv l)
+(* (length kept on the first line, index where the second line starts or -1, the smallest
+   such index: the collapsible spaces that end the first line may as well be handed over to
+   the second one, where they are skipped) *)
+Definition split_expect (emv maxw : Z) (items : list item) : Z * Z * Z :=
+  match flat_e (break_lines_e maxw 0 items) with
+  | [] => (0, -1, -1)
+  | [l] => (glyphs emv (no_hard (trim_line l)), -1, -1)
+  | l :: _ => (glyphs emv (no_hard (trim_line l)), glyphs emv l,
+               if existsb is_hard l then glyphs emv l else glyphs emv (no_hard (trim_line l)))
   end.
 
 (* ---- monitor *)
@@ -150,6 +157,7 @@ Fixpoint v_lead (ls : bool) (l : list item) : list item :=
   | Close e :: r => Close e :: v_lead ls r
   | Hard :: r => Hard :: v_lead true r
   | Space m w :: r => Space m w :: v_lead (ls && collapses m) r
+  | EB :: r => EB :: v_lead ls r
   | i :: r => i :: v_lead false r
   end.
 
@@ -161,12 +169,135 @@ Fixpoint br_follows (l : list item) (opened : bool) : bool :=
   | _ => false
   end.
 
-Fixpoint v_br (l : list item) : list item :=
+(* (solid: something precedes the space on the line; a leading space is skipped before:
+   inline.go:246-303 skipFirstWhitespace) *)
+Fixpoint v_br_from (solid : bool) (l : list item) : list item :=
   match l with
   | [] => []
-  | Space m w :: r => (if collapses m && br_follows r false then Space Pre w else Space m w) :: v_br r
-  | i :: r => i :: v_br r
+  | Space m w :: r =>
+      (if collapses m && solid && br_follows r false then Space Pre w else Space m w)
+      :: v_br_from (solid || negb (collapses m)) r
+  | Hard :: r => Hard :: v_br_from false r
+  | Word x :: r => Word x :: v_br_from true r
+  | Atomic m x h :: r => Atomic m x h :: v_br_from true r
+  | i :: r => i :: v_br_from solid r
   end.
+Definition v_br (l : list item) : list item := v_br_from false l.
+
+(* ---- STRUCTURAL TRIGGERS of the other known findings, computed from the input alone (item
+   list and container width, never from what the implementation returned).  A disagreement
+   on an input that has a trigger is reported under code 100 + flags, so that the matchers of
+   those findings (known_findings.json: code + symptom tag) accept nothing that lacks the
+   construct the defect needs.
+   t_space_limit (flag 1): in the model's own partition some line ends with a collapsible
+           space that ends its text node (the next item is not a Word) and that does not fit
+           in the room left: the situation in which text.SplitFirstLine reports a break at
+           the very end of the text or silently drops the space (findings
+           C11/space-at-limit-... ).
+   t_ow (flag 2): t_glued: a unit holds emergency break opportunities (overflow-wrap) together
+           with content of another box (a second text, an atomic inline): the implementation
+           only breaks a word in an emergency when its text box starts the line
+           (inline.go:623 isLineStart); or nested_start (below).  Finding
+           C11/overflow-wrap-line-start-test. *)
+Definition starts_word (l : list item) : bool :=
+  match l with Word _ :: _ => true | _ => false end.
+
+Fixpoint closes_w (l : list item) : Z :=
+  match l with Close e :: r => e + closes_w r | _ => 0 end.
+
+(* scans the n next items of l (pre = what precedes them on the line, reversed) for a
+   collapsible space that ends its text node and that does not fit, with the end edges
+   that stick to it, in the room av; `fits` : the text before it must fit *)
+Fixpoint scan_limit (fits : bool) (av : Z) (pre l : list item) (n : nat) : bool :=
+  match n, l with
+  | S n', i :: r =>
+      (match i with
+       | Space m w =>
+           collapses m && negb (starts_word r) &&
+           (negb fits || (lw (rev pre) <=? av)) && (av <? lw (rev pre) + w + closes_w r)
+       | _ => false
+       end) || scan_limit fits av (i :: pre) r n'
+  | _, _ => false
+  end.
+
+(* for every line of the model's partition: such a space on the line itself, or on the
+   next line when the text before it would still have fitted on this one (the model moved
+   it down because of the space's end edges) *)
+Fixpoint space_limit (avail av : Z) (ls : list (list item)) : bool :=
+  match ls with
+  | [] => false
+  | l :: r =>
+      scan_limit false av [] (l ++ concat r) (length l)
+      || (match r with
+          | n :: r' => scan_limit true av (rev l) (n ++ concat r') (length n)
+          | [] => false
+          end)
+      || space_limit avail avail r
+  end.
+
+Definition t_space_limit (cf : cfg) (items : list item) : bool :=
+  space_limit (avail cf) (avail cf - indent cf) (flat_e (break_lines_e (avail cf) (indent cf) items)).
+
+(* number of stretches of text (Word / Space) of a unit, a stretch ending at an inline-box
+   edge, an atomic inline or a forced break *)
+Fixpoint stretches (u : list item) (inside : bool) : nat :=
+  match u with
+  | [] => 0
+  | Word _ :: r | Space _ _ :: r => (if inside then 0 else 1) + stretches r true
+  | EB :: r => stretches r inside
+  | _ :: r => stretches r false
+  end.
+
+Definition is_atomic_item (i : item) : bool := match i with Atomic _ _ _ => true | _ => false end.
+
+Definition glued_unit (u : list item) : bool :=
+  existsb is_eb u && ((2 <=? stretches u false)%nat || existsb is_atomic_item u).
+
+(* ... that does not fit in a line (otherwise neither the model nor the implementation
+   breaks inside it) *)
+Definition t_glued (cf : cfg) (items : list item) : bool :=
+  existsb (fun u => glued_unit u && (avail cf - Z.max 0 (indent cf) <? lw u)) (units items).
+
+(* ... and, the other way round, the implementation takes a text box for the start of the
+   line as long as no DIRECT child of the line box is finished (lineChildren only records
+   those): inside an inline box that already holds content on the line, a word that follows
+   a regular break opportunity is broken in the middle of the line.  Trigger: a cut position
+   inside a top-level inline box, after some content of that box, followed by a breakable
+   word. *)
+Fixpoint breakable_next (suf : list item) : bool :=
+  match suf with
+  | Open _ :: r => breakable_next r
+  | Word _ :: EB :: _ => true
+  | _ => false
+  end.
+
+(* starts = the offsets (number of items) at which the lines of the model's partition start:
+   only a position where the model starts a line counts (the word did not fit in what was
+   left of the previous line) *)
+Fixpoint nested_start (starts : list nat) (n : nat) (pre suf : list item) (depth : nat) (seen : bool) : bool :=
+  match suf with
+  | [] => false
+  | i :: r =>
+      ((0 <? depth)%nat && seen && negb (is_nil pre) && cut_b pre suf && breakable_next suf
+       && existsb (Nat.eqb n) starts)
+      || match i with
+         | Open _ => nested_start starts (S n) (i :: pre) r (S depth) seen
+         | Close _ => nested_start starts (S n) (i :: pre) r (pred depth) (match depth with 1%nat => false | _ => seen end)
+         | Word _ | Space _ _ | Atomic _ _ _ => nested_start starts (S n) (i :: pre) r depth (seen || (0 <? depth)%nat)
+         | _ => nested_start starts (S n) (i :: pre) r depth seen
+         end
+  end.
+
+Fixpoint line_starts (n : nat) (ls : list (list item)) : list nat :=
+  match ls with
+  | [] => []
+  | l :: r => n :: line_starts (n + length l) r
+  end.
+
+Definition t_nested (cf : cfg) (items : list item) : bool :=
+  nested_start (line_starts 0 (flat_e (break_lines_e (avail cf) (indent cf) items))) 0 [] items 0 false.
+
+Definition t_ow (cf : cfg) (items : list item) : bool := t_glued cf items || t_nested cf items.
 
 Definition para_check (cf : cfg) (items : list item) (out : list oline) : N :=
   let k := lines_cmp (layout cf items) out in
@@ -179,7 +310,11 @@ Definition para_check (cf : cfg) (items : list item) (out : list oline) : N :=
     else if N.eqb k2 0 then 22%N
     else if N.eqb k3 0 then 23%N
     else if N.eqb k1 2 || N.eqb k2 2 || N.eqb k3 2 then 2%N   (* a variant is inexact: undecided *)
-    else k.
+    else
+      (* (the start edges that C11/lead-space-in-span-drops-start-edge removes change what fits) *)
+      let f := ((if t_space_limit cf items || t_space_limit cf (v_lead true items) then 1 else 0)
+                + (if t_ow cf items then 2 else 0))%N in
+      if N.eqb f 0 then k else (100 + f)%N.
 
 Definition check (c : case) : N :=
   match c with
@@ -187,8 +322,8 @@ Definition check (c : case) : N :=
   | CSplit exact emv maxw items len resume w =>
       if (resume =? 0) || ((resume >? 0) && (resume <? len)) || (len <? 0) then 5%N
       else if exact then
-        let '(el, er) := split_expect emv maxw items in
-        if (el =? len) && (er =? resume) then 0%N else 6%N
+        let '(el, er, er0) := split_expect emv maxw items in
+        if (el =? len) && (er0 <=? resume) && (resume <=? er) && ((0 <=? er) || (resume =? -1)) then 0%N else 6%N
       else 0%N
   | CMon availq indentq items lines =>
       (* the implementation's line width includes the text-indent of the first line *)
